@@ -430,6 +430,26 @@ def sig_polygon_around_hole(case):
     return False
 
 
+def cls_box_boundary(case):
+    """receiver is a GeoBox and the tested point / first vertex of the argument lies on the box's
+    outer boundary: GeoBox membership is inclusive (C01 box_contains_spec), so contains_shape is True"""
+    a, b = case['a'], case['b']
+    if a['k'] != 'box' or b['k'] not in ('pt', 'ln'):
+        return False
+    v = b['p'] if b['k'] == 'pt' else b['vs'][0]
+    return ring_state(v, rings(a)[0]) == 'boundary'
+
+
+def cls_hole_boundary(case):
+    """the argument is a point on the boundary of a POLYGON hole of the receiver: a polygon hole
+    excludes only its strict interior (C01 poly_contains_spec), so the point counts as contained"""
+    a, b = case['a'], case['b']
+    if a['k'] not in ('poly', 'box') or b['k'] != 'pt':
+        return False
+    hs = [h for h in a.get('holes', []) if h['k'] == 'hpoly']
+    return any(ring_state(b['p'], open_ring(h['o'])) == 'boundary' for h in hs)
+
+
 def collinear_only(a, b):
     """the closed sets touch, but no non-parallel segment pair does and no vertex of one lies in
     the other's closed set except along collinear overlaps: the documented exception"""
@@ -657,7 +677,9 @@ def main():
 
     # ---------------------------------------------------------------- closed-set reference (fixed library only)
     ref_stats = {'agree': 0, 'D5-point-on-ring-edge': 0, 'D5-point-on-segment': 0, 'D5-around-hole': 0,
-                 'collinear-only (documented)': 0, 'unexplained': 0}
+                 'collinear-only (documented)': 0,
+                 'point on polygon-hole boundary counted inside (C01 convention)': 0,
+                 'box boundary inclusive (C01 convention)': 0, 'unexplained': 0}
     unexplained = []
     for na in names:
         for nb in names:
@@ -680,6 +702,13 @@ def main():
                     cls = ('D5-around-hole', 'polygon_around_hole')
                 elif what == 'intersects_shape' and not got and collinear_only(a, b):
                     ref_stats['collinear-only (documented)'] += 1
+                    continue
+                elif what == 'contains_shape' and got and cls_hole_boundary(case):
+                    ref_stats['point on polygon-hole boundary counted inside (C01 convention)'] += 1
+                    continue
+                elif what == 'contains_shape' and got and cls_box_boundary(case) and \
+                        (b['k'] == 'pt' or collinear_only(a, b)):
+                    ref_stats['box boundary inclusive (C01 convention)'] += 1
                     continue
                 f = finding(ck, cls[1]) if cls else None
                 if f is not None:
